@@ -925,11 +925,16 @@ class Facts:
                 blk = getattr(p, field, None)
                 if isinstance(blk, list) and n in blk:
                     for s in blk[:blk.index(n)]:
-                        if isinstance(s, ast.If) and self._leaves(s.body):
-                            out.append((s.test, False))
-                        elif isinstance(s, ast.If) and s.orelse and \
-                                self._leaves(s.orelse):
-                            out.append((s.test, True))
+                        while isinstance(s, ast.If):
+                            if self._leaves(s.body):
+                                out.append((s.test, False))
+                                # if A: return .. elif B: return ..
+                                if len(s.orelse) == 1:
+                                    s = s.orelse[0]
+                                    continue
+                            elif s.orelse and self._leaves(s.orelse):
+                                out.append((s.test, True))
+                            break
             n = p
         return out
 
